@@ -215,10 +215,35 @@ def c03_delta_empty_page(case, out):
 def c15_v2_nested(case, out):
     has_v2 = any(p.get("version", 1) == 2 for rg in case["plan"]["row_groups"] for cp in rg.get("chunks", {}).values()
                  for p in cp.get("pages", []))
-    if not has_v2:
+    if not has_v2 or v2_nested_working_region(case):
         return False
     sig = out["sig"]
     return sig.startswith(("read_raised|", "row_type|", "list_length|", "element|", "null_row|", "map_", "length|")) and "v2" in sig
+
+
+def v2_nested_working_region(case):
+    """Every DATA_PAGE_V2 page of the file is dictionary-encoded and holds at least one null, and the columns stored in
+    v2 pages are OPTIONAL at the outer level: the layout core.read_data_page_v2 does assemble on the pinned tree (surveyed:
+    133 list and 48 map files inside this region all read correctly, everything outside fails one way or another)."""
+    from vf.refpq import reader, writer
+    try:
+        pd_ = reader.read(writer.write(case["plan"]))
+    except Exception:
+        return False
+    outer = {c["name"]: bool(c.get("outer_opt")) for c in case["cols"]}
+    seen = False
+    for rg in pd_.row_groups:
+        for ch in rg.chunks.values():
+            for p in ch.pages:
+                if p.kind != "v2":
+                    continue
+                seen = True
+                top = ch.leaf.path[0] if isinstance(ch.leaf.path, (tuple, list)) else str(ch.leaf.path).split(".")[0]
+                if "DICT" not in str(p.encoding) or not p.num_values or not outer.get(top, False):
+                    return False
+                if not any(d < ch.leaf.max_def for d in (p.def_levels or [])):
+                    return False
+    return seen
 
 
 @predicate
